@@ -256,7 +256,8 @@ func childMain(raw string) {
 		}
 		exec1(0, 0, p)
 	} else {
-		blocks := exprgen.AllBlocks(exprgen.BoundsFor(c.cfg.Tier))
+		// the ff blocks first: a budget cut on an overloaded machine then costs the tail of the biggest family, not a whole family
+		blocks := append(ffBlocks(c.cfg.Tier), exprgen.AllBlocks(exprgen.BoundsFor(c.cfg.Tier))...)
 		c.out.Stats["blocks_total"] = 0
 		for bi, b := range blocks {
 			if c.cfg.NShards > 1 && bi%c.cfg.NShards != c.cfg.Shard {
@@ -568,11 +569,11 @@ func main() {
 		Level:      "exploration",
 		Rule: func(prop, tier string) string {
 			b := exprgen.BoundsFor(tier)
-			return exprgen.Describe(b) + fmt.Sprintf("; (raw) every string of length <= %d over the %d symbols %q as a template. "+
-				"Every program is compiled by funclib.NewKeyBuilderEx(true) and (false); if Compile reports no error the expression is evaluated on its own case context and on 6 fixed contexts "+
+			return exprgen.Describe(b) + fmt.Sprintf("; (raw) every string of length <= %d over the %d symbols %q as a template; "+ffDescribe(tier)+". "+
+				"Every program (ff: see there) is compiled by funclib.NewKeyBuilderEx(true) and (false); if Compile reports no error the expression is evaluated on its own case context and on 6 fixed contexts "+
 				"(all-empty, numeric, huge, odd bytes, two real SliceSpaceExpressionContexts captured from the real extractor with a regex matcher; constant-only programs: 3 contexts; formulas: the case context; raw: 2). "+
 				"Oracle: no panic, Compile returns an expression or errors, every call returns (10 s of CPU time (or 3 min of wall time) without a call returning or a heap beyond 256 MiB in the sandbox process = did not return, confirmed twice in fresh processes). "+
-				"non-trivial = Compile reported no error, so the helper's own evaluation stage (not an error stage) ran; an outcome is (family, function, arity, compile status, first 64 bytes of every result)",
+				"non-trivial = Compile reported no error, so the helper's own evaluation stage (not an error stage) ran (ff: the file gave at least one function and every template of the sequence compiled, so every call site ran the body of a user function); an outcome is (family, function, arity, compile status, first 64 bytes of every result)",
 				b.RawLen, len(exprgen.RawAlphabet), string(exprgen.RawAlphabet))
 		},
 		Assumptions: func(string) []string {
@@ -582,6 +583,8 @@ func main() {
 				"the shared sub-context pool of the range helpers is put into a known state before every program that contains a range helper: every pooled object's parent is a tripwire context (in a fresh process it would be nil, later the context of an unrelated earlier evaluation); reaching the tripwire is reported as parent-context-not-set",
 				"process globals pinned: TZ=UTC, color.Enabled=true, humanize.Enabled=true, termunicode.UnicodeEnabled=true, stdlib.DisableLoad=false, working directory = fresh directory holding only the {load} fixture",
 				"an expression returned together with compile errors is not evaluated (the statement promises a usable expression or errors; the commands refuse such templates)",
+				"ff: the definitions file is loaded afresh (new function closures, funclib.Additional emptied first) for every case and every optimisation setting, so a case is its own whole history and replays alone; loading is compiling the bodies, so a panic of the loader counts as a panic of Compile, while load errors (rejected definitions) are allowed answers; after the first panic of a setting the rest of that setting is not run",
+				"ff: arguments of a user function are evaluated on every read (call by name), so a body reading an argument k times evaluates a call nested d deep k^d times: nests with k^d > 65536 are resource exhaustion by design and not generated (k is declared per function in funcsfile.go: opt, two, d read an argument twice)",
 			}
 		},
 		Worker:         worker,
